@@ -42,7 +42,14 @@ pub fn export(profile_name: &str, n: usize, seed: u64, out: &str) {
     profile.set_all = false; // SQLite has no INTERSECT ALL / EXCEPT ALL
     let mut tp = TableProfile::default();
     tp.max_rows = 8;
-    let strat = sql_case_strategy(tp, profile, 220, 2);
+    // focused generators of single properties (cross-check of the reference on
+    // exactly the statements those properties judge)
+    let strat = match profile_name {
+        "c28" => crate::props::c28::strategy(crate::runner::Tier::Quick),
+        "values" => crate::props::c44::export_strategy(),
+        "windows" => crate::props::c26::export_strategy(),
+        _ => sql_case_strategy(tp, profile, 220, 2),
+    };
     let mut seed_bytes = [0u8; 32];
     seed_bytes[..8].copy_from_slice(&seed.to_le_bytes());
     let mut runner = TestRunner::new_with_rng(Config::default(), TestRng::from_seed(RngAlgorithm::ChaCha, &seed_bytes));
